@@ -207,6 +207,14 @@ theorem force_idem (isZero : α → Bool) (lg ex : α → α) (t : Space) (g : G
   obtain ⟨s, d⟩ := g
   cases s <;> cases t <;> rfl
 
+/-- After forcing, the grid is in the requested space — whatever space it was in (this is what
+`BeliefPropagation.__init__` relies on when it is handed a prior object left in the other space by a
+previous run). -/
+theorem force_space (isZero : α → Bool) (lg ex : α → α) (t : Space) (g : Grid α) :
+    (force isZero lg ex t g).space = t := by
+  obtain ⟨s, d⟩ := g
+  cases s <;> cases t <;> rfl
+
 /-- Forcing a space the grid is already in does nothing (the second and later calls with the same
 `probability_space` do not touch the user's prior object). -/
 theorem force_same (isZero : α → Bool) (lg ex : α → α) (g : Grid α) :
